@@ -48,6 +48,8 @@ import (
 	"os"
 	"path/filepath"
 	"runtime"
+	"runtime/debug"
+	"strconv"
 	"strings"
 	"sync"
 	"sync/atomic"
@@ -393,6 +395,8 @@ type extReplay struct {
 func (w *rlWorld) extVector(s *extSite, inforce []string, where, tag string) {
 	m := s.model(inforce)
 	now := time.Now()
+	w.last, w.reuse = nil, true
+	defer func() { w.last, w.reuse = nil, false }()
 	probe := func(name, tg string, cf credFn, complete bool) {
 		c := cf(tag+"-"+tg, now)
 		c.Probe = complete
@@ -438,7 +442,7 @@ func extBoot(k extCase, slot int, dir string, logf func(string, ...any)) (*rlWor
 	return w, es, dsl, nil
 }
 
-// extRunHistory runs one history in a virtual-time bubble. It returns false on an infrastructure problem.
+// extRunHistory runs one history in a virtual-time bubble (boot with content A, then the steps).
 func extRunHistory(t *testing.T, r *runner.Run, slot int, k extCase, caseNo int) {
 	tl := newTally()
 	bubble0(t, r, func() {
@@ -523,8 +527,8 @@ func extRunHistory(t *testing.T, r *runner.Run, slot int, k extCase, caseNo int)
 	tl.flush(r)
 }
 
-// extHistories: every sequence of `depth` content states under each reload style; withMixed: for depth 2 also every
-// per-step combination of styles.
+// extHistories: every sequence of `depth` content states under each reload style; mixed: also every sequence of 2
+// content states under every per-step combination of two different styles.
 func extHistories(depth int, mixed bool) [][]extStep {
 	var out [][]extStep
 	var rec func(prefix []extStep, style string)
@@ -583,12 +587,16 @@ func runExtSequential(t *testing.T, r *runner.Run) {
 	http.DefaultTransport = svcRT{}
 	par, vault := extCases(r.Thorough())
 	t0 := time.Now()
+	defer debug.SetGCPercent(debug.SetGCPercent(800)) // thousands of short-lived application instances: collect less often
 	workers := runtime.NumCPU()
 	if workers > 12 {
 		workers = 12
 	}
 	if workers < 1 {
 		workers = 1
+	}
+	if n, err := strconv.Atoi(os.Getenv("C08_EXT_WORKERS")); err == nil && n > 0 {
+		workers = n // development aid
 	}
 	var next atomic.Int64
 	var wg sync.WaitGroup
@@ -775,20 +783,22 @@ func extSchedCases(thorough bool) []extSchedCase {
 			if _, ok := s.expr(c, "x"); !ok || c.store == "vault" {
 				continue
 			}
-			late := c.name == "file-ref" || c.name == "env-ref"
-			for _, v := range []rlVariant{cold, warm, {false, []string{"new"}}, {false, []string{"none"}}} {
-				if !late && (v.warm || v.ovl[0] == "none") {
-					continue
+			// the locking pattern of a reload does not depend on the carrier (every carrier is read before the state
+			// lock is taken): the ones read while the authenticators are built get every variant, of the ones
+			// substituted at compile time one per store
+			switch c.name {
+			case "file-ref", "env-ref":
+				for _, v := range []rlVariant{cold, warm, {false, []string{"new"}}, {false, []string{"none"}}, {false, []string{"old", "new"}}} {
+					out = append(out, extSchedCase{s, c, "B", v})
 				}
-				out = append(out, extSchedCase{s, c, "B", v})
-			}
-			if late || c.name == "file-placeholder" {
 				for _, target := range []string{"empty", "missing", "B+newline"} {
 					out = append(out, extSchedCase{s, c, target, cold}, extSchedCase{s, c, target, warm})
 				}
-			}
-			if late {
-				out = append(out, extSchedCase{s, c, "B", rlVariant{false, []string{"old", "new"}}})
+			case "file-placeholder", "env-placeholder":
+				out = append(out, extSchedCase{s, c, "B", cold})
+				if c.name == "file-placeholder" {
+					out = append(out, extSchedCase{s, c, "missing", cold})
+				}
 			}
 		}
 	}
